@@ -40,6 +40,9 @@ func (r *DescribeLogDirsResponse) decode(pd packetDecoder, version int16) error 
 	if err != nil {
 		return err
 	}
+	if n < 0 {
+		return errInvalidArrayLength
+	}
 
 	r.LogDirs = make([]DescribeLogDirsResponseDirMetadata, n)
 	for i := 0; i < n; i++ {
@@ -114,6 +117,9 @@ func (r *DescribeLogDirsResponseDirMetadata) decode(pd packetDecoder, version in
 	if err != nil {
 		return err
 	}
+	if n < 0 {
+		return errInvalidArrayLength
+	}
 
 	r.Topics = make([]DescribeLogDirsResponseTopic, n)
 	for i := 0; i < n; i++ {
@@ -162,6 +168,9 @@ func (r *DescribeLogDirsResponseTopic) decode(pd packetDecoder, version int16) e
 	n, err := pd.getArrayLength()
 	if err != nil {
 		return err
+	}
+	if n < 0 {
+		return errInvalidArrayLength
 	}
 	r.Partitions = make([]DescribeLogDirsResponsePartition, n)
 	for i := 0; i < n; i++ {
